@@ -319,6 +319,11 @@ func shareAuthSignature(sc *SecretConnection, pubKey crypto.PubKey, signature cr
 				return
 			}
 			length := int(binary.LittleEndian.Uint32(lengthBs))
+			// the body arrives in a single frame, so it cannot be longer than one frame's payload
+			if length > dataMaxSize {
+				err2 = errors.New("auth signature message is too long")
+				return
+			}
 			// receive body
 			readBuffer := make([]byte, length)
 			_, err2 = sc.Read(readBuffer)
